@@ -169,7 +169,7 @@ type plan struct {
 var muxKnown = map[string]bool{"OPTIONS": true, "DESCRIBE": true, "ANNOUNCE": true, "SETUP": true, "PLAY": true, "PAUSE": true,
 	"TEARDOWN": true, "GET_PARAMETER": true, "SET_PARAMETER": true, "RECORD": true, "REDIRECT": true}
 
-var malformedKinds = []string{"garbage", "noproto", "badprofile", "badinterleaved", "badport", "missing", "empty"}
+var malformedKinds = []string{"garbage", "noproto", "badprofile", "badinterleaved", "badport", "missing", "empty", "hugeport", "hugeport"}
 
 func modeText(t *rapid.T, mode string) string {
 	switch mode {
@@ -217,7 +217,7 @@ func genPlan(t *rapid.T, transport string) *plan {
 	if transport == "wsp" {
 		p.WSPData = rapid.IntRange(0, 3).Draw(t, "dataChannel") > 0
 	}
-	goals := []string{"play", "play", "play", "record", "record", "none"}
+	goals := []string{"play", "play", "play", "record", "record", "none", "play-unusable-port"}
 	if transport == "wsp" {
 		goals = []string{"play", "play", "play", "play", "record", "none"} // the endpoint is play-only
 	}
@@ -233,6 +233,19 @@ func genPlan(t *rapid.T, transport string) *plan {
 		happy = []func() step{
 			func() step { return step{Method: "DESCRIBE", PathSym: playPath} },
 			func() step { return genSetup(t, playPath, "play", true) },
+			func() step { return step{Method: "PLAY", PathSym: playPath} },
+		}
+	case "play-unusable-port":
+		// a transport that parses but names no UDP port, then PLAY, then a corrective SETUP
+		// and PLAY: whichever of the first two the server refuses must have changed nothing
+		goal = "play"
+		happy = []func() step{
+			func() step { return step{Method: "DESCRIBE", PathSym: playPath} },
+			func() step {
+				return step{Method: "SETUP", PathSym: playPath, Track: "video", Trans: "udp", Malformed: "hugeport"}
+			},
+			func() step { return step{Method: "PLAY", PathSym: playPath} },
+			func() step { return step{Method: "SETUP", PathSym: playPath, Track: "video", Trans: "tcp"} },
 			func() step { return step{Method: "PLAY", PathSym: playPath} },
 		}
 	case "record":
@@ -371,6 +384,10 @@ func transportHeader(s *step, udpPort int) (string, bool) {
 		return "RTP/AVP/TCP;unicast;interleaved=abc" + mode, true
 	case "badport":
 		return "RTP/AVP;unicast;client_port=x-y" + mode, true
+	case "hugeport":
+		// well-formed integers, but no UDP port: a server may refuse the SETUP or fail the
+		// PLAY later; either way a refused request must leave the session as it was
+		return fmt.Sprintf("RTP/AVP;unicast;client_port=%d-%d%s", 70000+ch, 70001+ch, mode), true
 	case "missing":
 		return "", false
 	case "empty":
